@@ -430,7 +430,8 @@ class IndexLevel:
             return False
 
         node = self
-        for k in key:
+        key_iter = iter(key)
+        for k in key_iter:
             if not node.index.__contains__(k):
                 return False
 
@@ -439,7 +440,10 @@ class IndexLevel:
                 continue
 
             node.index._loc_to_iloc(k)
-            return True # if above does not raise
+            # if above does not raise, a leaf is found: it is a member only if no key components remain
+            for _ in key_iter:
+                return False
+            return True
 
         return False
 
